@@ -327,6 +327,8 @@ Json generate(const std::string& tier, uint64_t seed, uint64_t index) {
   w.set("colsizes", (long)(rng.chance(0.6) ? 1 : rng.chance(0.6) ? 2 : 0));
   sc.set("writer", w);
   sc.set("read_flags", (long)rng.below(2));
+  // the receiving handler: takes everything, or wants a single objective (NeedObj), as a driver with objno=k does
+  sc.set("only_obj", !m.objs.empty() && rng.chance(0.3) ? (long)rng.below(m.objs.size()) : -1L);
   // names (.col: variables; .row: constraints, logical constraints, objectives), given for none, one or both files
   auto gen_names = [&](const char* base, size_t n) {
     Json a = Json::array();
@@ -422,6 +424,12 @@ sim::RunResult run(const Json& sc) {
     bump(st, std::string("bytes.") + enc, (long)bytes.size());
     // ---------------- reader party
     ReadOpts ro; ro.flags = flags; ro.handler = H_CHECK; ro.want_items = true; ro.norm_zero = true;
+    const int only_obj = sc.has("only_obj") ? (int)sc["only_obj"].as_int(-1) : -1;
+    ro.only_obj = only_obj;
+    auto unwanted = [&](const std::string& key) {      // items of objectives the handler declined
+      if (only_obj < 0 || key.size() < 2 || (key[0] != 'O' && key[0] != 'G') || !isdigit((unsigned char)key[1])) return false;
+      return atoi(key.c_str() + 1) != only_obj;
+    };
     ReadOutcome out;
     SimRun sr = sim_session(nofaults, 500000, [&] { out = read_nl_file(base + ".nl", ro); });
     if (sr.exited) { v.set("HANG", std::string("reader/") + enc, "NL reader did not return"); continue; }
@@ -441,6 +449,7 @@ sim::RunResult run(const Json& sc) {
     if (have_row) for (auto& n : rownames) hx.max_con_name_len = std::max(hx.max_con_name_len, (int)n.size());
     ex.build(hx, w);
     for (auto& kv : ex.items) {
+      if (unwanted(kv.first)) { if (out.items.count(kv.first)) v.set("ITEM_PHANTOM", item_kind(kv.first) + "/" + enc, "item " + kv.first + " of a declined objective was notified"); continue; }
       auto it = out.items.find(kv.first);
       if (it == out.items.end()) { v.set("ITEM_MISSING", item_kind(kv.first) + "/" + enc, "fed item " + kv.first + " = [" + kv.second.substr(0, 200) + "] never notified by the reader (" + enc + ")"); break; }
       if (it->second != kv.second) {
